@@ -151,6 +151,18 @@ def locate(src, t):
         m = ms[t.get("nth", 0)]
         end = body.index(';', m.end())
         return body[m.end():end]
+    if kind == "order":
+        # 1 if the first match of pattern "first" starts before the first match of pattern "then", else 0
+        # (a missing "first" counts as 0 when "missing_first" is "zero"; a missing "then" is an error)
+        a = re.search(t["first"], body, re.S)
+        b = re.search(t["then"], body, re.S)
+        if not b:
+            raise GenError("pattern %s not found in %s" % (t["then"], t.get("func", "file")))
+        if not a:
+            if t.get("missing_first") == "zero":
+                return "0"
+            raise GenError("pattern %s not found in %s" % (t["first"], t.get("func", "file")))
+        return "1" if a.start() < b.start() else "0"
     if kind == "regex":
         m = re.search(t["pattern"], body, re.S)
         if not m:
